@@ -39,10 +39,12 @@ from harness import tlc, tlaval, MachineryError, runner
 
 MC_CFG = """SPECIFICATION Spec
 CONSTANTS
-  MaxLen = 3
+  MaxLen = %(maxlen)d
+  LaterLen = %(laterlen)d
   MaxReq = %(maxreq)d
   Guard = %(guard)s
   BlockLens = %(blocklens)s
+  CheckBlocks = %(guard)s
 VIEW View
 PROPERTY Step_Contained
 PROPERTY Step_OutsideIsErrorNoEffect
@@ -52,11 +54,16 @@ INVARIANT Inv_OutsideUntouched
 
 TRACE_CFG = """SPECIFICATION TSpec
 CONSTANTS
-  MaxLen = 3
+  MaxLen = %(maxlen)d
+  LaterLen = 1
   MaxReq = 1
   Guard = TRUE
   BlockLens = %(blocklens)s
+  CheckBlocks = FALSE
 """
+
+# single-worker TLC runs: no need for one GC / JIT thread per core
+SMALL_JVM = "-XX:ParallelGCThreads=2 -XX:CICompilerCount=2"
 
 QUICK_LENS = [0, 64, 65 * 16 + 1]
 THOROUGH_LENS = [0, 1, 15, 16, 17, 31, 32, 33, 63, 64, 65, 127, 128, 129, 1023, 1024, 1025, 1040, 1041, 1042, 2047, 2048, 2049, 4097]
@@ -76,6 +83,15 @@ def expand(steps):
             out.append({"m": "GET", "w": s["w"], "c": "stale", "u": s["u"], "x_prep": True})
         out.append(s)
     return out
+
+
+def tlc_run(*a, **kw):
+    """tlc.run, repeated once if the JVM was killed from outside (SIGTERM/SIGKILL
+    from a neighbour's clean-up), which is not a result."""
+    r = tlc.run(*a, **kw)
+    if r.rc in (143, 137, -15, -9) and not r.timed_out:
+        r = tlc.run(*a, **kw)
+    return r
 
 
 def tla_set(xs):
@@ -99,8 +115,13 @@ def comp_class(c):
 
 
 def shape(u):
+    """Normalised shape of a Uri-Path: component classes, runs collapsed; empty
+    components that are neither first nor last are dropped (they vanish when
+    the components are joined and the path is parsed)."""
     out = []
-    for c in u:
+    for i, c in enumerate(u):
+        if c == [] and 0 < i < len(u) - 1:
+            continue
         k = comp_class(c) + "+"
         if not out or out[-1] != k:
             out.append(k)
@@ -217,16 +238,16 @@ def random_history(rng):
 
 
 # -- TLC helpers ------------------------------------------------------------------------
-def run_trace_mode(wd, mode, blocklens, infile, outfile, timeout, tag=""):
+def run_trace_mode(wd, mode, blocklens, infile, outfile, timeout, tag="", maxlen=3):
     cfg = "FileServerTrace_run%s.cfg" % tag
-    wd.write(cfg, TRACE_CFG % {"blocklens": tla_set(blocklens)})
-    r = tlc.run(
+    wd.write(cfg, TRACE_CFG % {"blocklens": tla_set(blocklens), "maxlen": maxlen})
+    r = tlc_run(
         wd,
         "FileServerTrace.tla",
         cfg,
         workers=1,
         timeout=timeout,
-        env={"C19_MODE": mode, "C19_IN": infile, "C19_OUT": outfile},
+        env={"C19_MODE": mode, "C19_IN": infile, "C19_OUT": outfile, "JAVA_TOOL_OPTIONS": SMALL_JVM},
         heap="3g",
     )
     tlc.need_ok_run(r, "FileServerTrace (%s)" % mode)
@@ -318,7 +339,7 @@ def work(rep, args):
     base = tempfile.mkdtemp(prefix="verif-c19-")
     try:
         # the worker processes are forked before any thread exists
-        with Pool(min(16, os.cpu_count() or 4), initializer=_init_worker, initargs=(base,)) as pool:
+        with Pool(1 if args.replay else min(16, os.cpu_count() or 4), initializer=_init_worker, initargs=(base,)) as pool:
             with tlc.Workdir() as wd:
                 _work(rep, args, quick, rng, blocklens, base, wd, pool)
     finally:
@@ -336,21 +357,31 @@ def _work(rep, args, quick, rng, blocklens, base, wd, pool):
     # 1. model check both variants (threads: TLC runs as a subprocess)
     mc = {}
 
-    def run_mc(name, guard, maxreq):
+    def run_mc(name, guard, maxlen, laterlen, maxreq):
         cfg = "FileServer_%s.cfg" % name
-        wd.write(cfg, MC_CFG % {"maxreq": maxreq, "guard": "TRUE" if guard else "FALSE", "blocklens": tla_set(blocklens)})
+        wd.write(cfg, MC_CFG % {"maxlen": maxlen, "laterlen": laterlen, "maxreq": maxreq, "guard": "TRUE" if guard else "FALSE", "blocklens": tla_set(blocklens)})
         try:
             # the unguarded variant is expected to fail in the very first state expansion: one worker stops at once
-            mc[name] = tlc.run(wd, "FileServer.tla", cfg, timeout=240 if quick else 1500, workers=None if guard else 1)
+            mc[name] = tlc_run(
+                wd,
+                "FileServer.tla",
+                cfg,
+                timeout=300 if quick else 2400,
+                workers=None if guard else 1,
+                env={"JAVA_TOOL_OPTIONS": "-XX:ParallelGCThreads=4" if guard else SMALL_JVM},
+            )
         except Exception as e:  # reported by the main thread
             mc[name] = e
 
     threads = []
     if replay_only is None:
-        maxreq = 2 if quick else 3
+        # first request of a history: Uri-Paths up to maxlen components; later ones up to laterlen
+        maxlen, laterlen, maxreq = (3, 2, 2) if quick else (4, 3, 3)
+        # unguarded: expected to fail in the first state expansion; a small request set keeps
+        # TLC's reconstruction of the counterexample (which re-enumerates the successors) short
         threads = [
-            threading.Thread(target=run_mc, args=("unguarded", False, 1)),
-            threading.Thread(target=run_mc, args=("guarded", True, maxreq)),
+            threading.Thread(target=run_mc, args=("unguarded", False, 1, 1, 1)),
+            threading.Thread(target=run_mc, args=("guarded", True, maxlen, laterlen, maxreq)),
         ]
         threads[0].start()
 
@@ -358,7 +389,7 @@ def _work(rep, args, quick, rng, blocklens, base, wd, pool):
     histories = []  # list of (origin, steps)
     block_jobs = []
     if replay_only is None:
-        enum, r_enum = run_trace_mode(wd, "enum", blocklens, "/dev/null", wd.file("enum.json"), 300)
+        enum, r_enum = run_trace_mode(wd, "enum", blocklens, "/dev/null", wd.file("enum.json"), 600, maxlen=maxlen)
         timings["enum_s"] = round(r_enum.wall, 1)
         reqs = enum["requests"]
         if len(reqs) < 1000:
@@ -379,14 +410,14 @@ def _work(rep, args, quick, rng, blocklens, base, wd, pool):
             if not h:
                 raise MachineryError("could not read the counterexample of the unguarded variant\n" + un.out[-3000:])
             histories.append(("counterexample-unguarded", expand(h)))
-        nhist = 300 if quick else 6000
-        nuni = 1500 if quick else 40000
+        nhist = 300 if quick else 20000
+        nuni = 1500 if quick else 120000
         for _ in range(nhist):
             histories.append(("random-history", expand(random_history(rng))))
         for _ in range(nuni):
             histories.append(("random-unicode", expand([random_unicode_case(rng)])))
     else:
-        histories.append(("replay", expand([x for x in replay_only["history"] if not x.get("x_prep")])))
+        histories.append(("replay", replay_only["history"]))  # as executed (preparatory GETs included)
 
     # 3. replay on the real FileServer
     t1 = time.time()
@@ -398,7 +429,7 @@ def _work(rep, args, quick, rng, blocklens, base, wd, pool):
             raise MachineryError("driver failed: %s\n%s" % (json.dumps(res.get("steps", res.get("job")))[:300], res["error"]))
 
     # 4. TLC judges every observation
-    verdicts, r_judge = judge(wd, results, blocks, blocklens, "main", 600 if quick else 2400, parts=4)
+    verdicts, r_judge = judge(wd, results, blocks, blocklens, "main", 600 if quick else 2400, parts=4 if quick else 8)
     timings["judge_s"] = round(r_judge.wall, 1)
 
     seen_sig = set()
@@ -540,7 +571,7 @@ def _work(rep, args, quick, rng, blocklens, base, wd, pool):
                 "states": g.distinct,
                 "transitions": g.generated,
                 "depth": g.depth,
-                "mc_constants": {"MaxLen": 3, "MaxReq": 2 if quick else 3, "alphabet": 9, "requests": len(reqs)},
+                "mc_constants": {"MaxLen": maxlen, "LaterLen": laterlen, "MaxReq": maxreq, "alphabet": 9, "requests": len(reqs), "unguarded_run": {"MaxLen": 1, "MaxReq": 1}},
                 "mc_guarded": g.summary(),
                 "mc_unguarded": dict(un.summary(), counterexample_reproduced_on_impl=cex_reproduced),
                 "exhaustive": True,
